@@ -11,6 +11,7 @@ pub mod layer_e;
 pub mod gl;
 pub mod c11;
 pub mod t2;
+pub mod t2b;
 pub mod c09;
 pub mod c15;
 pub mod c06;
@@ -23,6 +24,7 @@ pub use layer_e::*;
 pub use gl::*;
 pub use c11::*;
 pub use t2::*;
+pub use t2b::*;
 pub use c09::*;
 pub use c15::*;
 pub use c06::*;
